@@ -16,6 +16,7 @@ from harness.common import h2f, run_driver, LeanError
 from harness import lang
 
 RTOL, ATOL = 1e-9, 1e-11
+PATTERN_EPS = 1e-12      # reference entries below this (relative to the row) are rounding residues, not structure
 KINK = 1e-3
 
 
@@ -354,7 +355,7 @@ def judge_J(rec):
         if pattern is not None:
             inv = {rr: k for k, rr in enumerate(rows)}
             missing = [(inv[r], c) for r in range(nr) for c in range(nc) if Jm[inv[r], c] != 0 and (r, c) not in pattern] if False else \
-                [(k, c) for k in range(nr) for c in range(nc) if Jm[k, c] != 0 and (rows[k], c) not in pattern]
+                [(k, c) for k in range(nr) for c in range(nc) if abs(Jm[k, c]) > PATTERN_EPS * max(1.0, float(np.max(np.abs(Jm[k])))) and (rows[k], c) not in pattern]
             if missing:
                 out.append((label, f"entries {missing[:4]} are non-zero but missing from the sparse pattern", "pattern"))
     return out
@@ -379,7 +380,8 @@ def judge_pattern(records):
             Jm = np.array([h2f(x) for x in w[3:]]).reshape(nr, nc)
             for k in range(nr):
                 for c in range(nc):
-                    if np.isfinite(Jm[k, c]) and Jm[k, c] != 0:
+                    # a float residue of terms that cancel symbolically (w**-1 * w) is not a structural non-zero
+                    if np.isfinite(Jm[k, c]) and abs(Jm[k, c]) > PATTERN_EPS * max(1.0, float(np.nanmax(np.abs(np.where(np.isfinite(Jm[k]), Jm[k], 0.0))))):
                         union[(k, c)] = True
         if not union:
             continue
@@ -393,3 +395,92 @@ def judge_pattern(records):
                     out.append((r, label, f"entries {sorted(missing)[:5]} (declaration order) are non-zero at other points of the same model "
                                           f"but missing from the sparse pattern stored at y = {np.round(r['point']['y'], 4).tolist()}"))
     return out
+
+
+def regen_histories(gms, rng, tmp, tag, what=("F", "J", "M", "HVP"), with_module=True):
+    """generation histories on ONE symbolic equations object: inline for the declared variable layout, inline again for the
+    reversed layout, then (optionally) a rendered module for a rotated layout — each compared with a fresh generation from fresh
+    equations for the same layout.  Whatever was generated before must not show in what is generated now.
+    -> (failures [(case, message)], number of histories run)"""
+    from Solverz import made_numerical, module_printer
+    from Solverz.variable.variables import Vars
+    from Solverz.utilities.address import Address
+    fails, nh = [], 0
+
+    def relayout(y0_, names):
+        a = Address()
+        for n in names:
+            a.add(n, int(y0_.a.size[n]))
+        return Vars(a, np.concatenate([np.atleast_1d(y0_[n]) for n in names]))
+
+    def values(nd, kind, y, v):
+        out = {}
+        t = 0.3
+        args = (y, nd.p) if kind == "AE" else (t, y, nd.p)
+        if "F" in what:
+            out["F"] = np.asarray(nd.F(*args), dtype=float)
+        if "J" in what:
+            J = nd.J(*args); out["J"] = J.toarray() if hasattr(J, "toarray") else np.asarray(J)
+        if "M" in what and kind == "DAE":
+            out["M"] = nd.M.toarray() if hasattr(nd.M, "toarray") else np.asarray(nd.M)
+        if "HVP" in what and hasattr(nd, "HVP"):
+            hargs = (y, nd.p, v) if kind == "AE" else (t, y, nd.p, v)
+            try:
+                out["HVP"] = nd.HVP(*hargs).toarray()
+            except Exception as ex:  # noqa
+                out["HVP"] = f"{type(ex).__name__}: {ex}"[:120]
+        return out
+
+    for k, gm in enumerate(gms):
+        if gm.kind not in ("AE", "DAE") or len(gm.vars) < 2:
+            continue
+        want_hvp = "HVP" in what
+        try:
+            mdl = lang.build(gm); eqs, y0 = lang.quiet(mdl.create_instance)
+            names = list(y0.a.object_list)
+            rot = names[1:] + names[:1]
+            layouts = [names, list(reversed(names)), rot if rot != list(reversed(names)) else names]    # each differs from the one before
+            lang.quiet(made_numerical, eqs, y0, sparse=True, make_hvp=want_hvp)         # first generation
+            steps = [("inline generated again for the reversed variable layout", layouts[1], "inline")]
+            if with_module:
+                steps.append(("module rendered afterwards for a rotated variable layout", layouts[2], "module"))
+            for si, (label, lay, backend) in enumerate(steps):
+                def gen(e, y, nm):
+                    if backend == "inline":
+                        return lang.quiet(made_numerical, e, y, sparse=True, make_hvp=want_hvp)
+                    lang.quiet(module_printer(e, y, nm, directory=tmp, jit=False, make_hvp=want_hvp).render)
+                    if tmp not in sys.path:
+                        sys.path.insert(0, tmp)
+                    return lang.quiet(importlib.import_module, nm).mdl
+                yl = relayout(y0, lay)
+                mdl2 = lang.build(gm); eqs2, y02 = lang.quiet(mdl2.create_instance)
+                nd_fresh = gen(eqs2, relayout(y02, lay), f"{tag}_f{k}_{si}_{os.getpid()}")     # a model the generators refuse ends the history
+                try:
+                    nd_reuse = gen(eqs, yl, f"{tag}_r{k}_{si}_{os.getpid()}")
+                except Exception as ex:  # noqa
+                    nh += 1
+                    fails.append((dict(model=gm.describe(), history=label), f"generation raised {type(ex).__name__}: {str(ex)[:100]} for the same symbolic "
+                                  f"equations, {label}, while a fresh generation for that layout succeeds"))
+                    break
+                yy = yl.array * 1.1 + 0.05
+                v = np.round(rng.normal(size=len(yy)), 3)
+                with warnings.catch_warnings():
+                    warnings.simplefilter("ignore")
+                    a1, a2 = values(nd_reuse, gm.kind, yy, v), values(nd_fresh, gm.kind, yy, v)
+                nh += 1
+                for key in a2:
+                    x1, x2 = a1.get(key), a2[key]
+                    if isinstance(x1, str) or isinstance(x2, str):
+                        if isinstance(x1, str) != isinstance(x2, str):
+                            fails.append((dict(model=gm.describe(), history=label), f"{key}: {x1 if isinstance(x1, str) else 'values'} after the "
+                                          f"history, {x2 if isinstance(x2, str) else 'values'} from a fresh generation"))
+                        continue
+                    if x1 is None or np.shape(x1) != np.shape(x2) or not np.allclose(x1, x2, rtol=1e-12, atol=1e-13, equal_nan=True):
+                        dd = "shape" if (x1 is None or np.shape(x1) != np.shape(x2)) else f"{np.nanmax(np.abs(x1 - x2)):.3g}"
+                        fails.append((dict(model=gm.describe(), history=label), f"{key} of the same symbolic equations, {label}, differs from a fresh "
+                                      f"generation for that layout (max abs diff {dd})"))
+        except Exception as ex:  # noqa — a model the generators refuse is not a history failure
+            continue
+    for kmod in [kk for kk in sys.modules if kk.startswith(tag + "_")]:
+        del sys.modules[kmod]
+    return fails, nh
